@@ -278,6 +278,7 @@ def run(prog, chk):
     open_flag_table(prog, chk, "C19.g")
     position_preserving_probe(prog, chk, "C19.h")
     copy_destination_flags(prog, chk, "C19.i")
+    stale_path_summaries(prog, chk, "C19.j")
 
 
 def copy_destination_flags(prog, chk, rid):
@@ -556,3 +557,29 @@ def run_thorough(prog, chk):
                     "%s starts its separator scan at `%s`%s, getBaseName at `%s`%s: for paths on which the two differ (e.g. a trailing separator) "
                     "directory name + separator + base name no longer recomposes the path" % (
                         name.split("::")[-1], start[:50], (" after " + "; ".join(pre)[:60]) if pre else "", ref[0][:50], (" after " + "; ".join(ref[1])[:40]) if ref[1] else ""))
+
+
+def stale_path_summaries(prog, chk, rid):
+    """simplifyPath / getRelativePath / purge build a path in an accumulator string and decide, component by component, what to do with
+    its tail.  A local that remembers what was appended last (so that the text need not be looked at again) is only right as long as
+    every operation on the accumulator refreshes it - also the one that removes a component."""
+    from .. import stale
+    chk.rule(rid, "FRESH (dataflow): in the path functions a local computed from what was put into the accumulator string and read by a guard of "
+                  "a later change of the accumulator is redefined on every path from each change of the accumulator to that guard", floor=1)
+    fs = [f for f in prog.functions.values() if f.blocks and (f.file.endswith("src/File.cpp") or f.file.endswith("src/Directory.cpp"))]
+    acc = [f for f in fs if any(C.loop_blocks(f, c) for c in q.calls(f) if (f.nodes[c].get("callee") or "").startswith("String::") and
+                                (f.nodes[c].get("callee") or "").split("::")[-1] in stale.MUTATORS)]
+    if not acc:
+        raise AnalysisBroken("no function of File.cpp / Directory.cpp changes a String inside a loop")
+    for f in acc:
+        where = "%s:%s" % (f.file, f.line)
+        found, pairs = stale.findings(f)
+        if found:
+            v, g, m, path = found[0]
+            chk.bad(rid, f, "stale-summary:" + v, f.where(g),
+                    "`%s` remembers what was last put into the accumulator and decides `%s`, but `%s` changes the accumulator without "
+                    "refreshing it (path through lines %s): the decision is taken on what the text ended with before that change "
+                    "(simplifyPath(\"../a/../..\") answers \"\" instead of \"../..\")" % (
+                        v, q.no_casts(f.r(g))[:40], q.no_casts(f.r(m))[:40], f.path_lines(path)[:10]), f.path_lines(path), evals=pairs + 1)
+        else:
+            chk.ok(rid, f, "accumulator loop: %d cached summaries, all refreshed after every change" % pairs, where, "reaching-definition search from each change to each guard", evals=pairs + 1, nontrivial=pairs > 0)
